@@ -140,12 +140,12 @@ def stream_sample(ctx, ntables):
     # one MlClustering object (target by name) used for a table and then for the same table without one of the other columns
     from syndiffix.clustering.strategy import MlClustering
     from syndiffix.common import AnonymizationParams
-    for _ in range(ctx.scale(1, 4)):
+    for it in range(ctx.scale(2, 4)):
         n = 160; a = [R.randint(0, 3) for _ in range(n)]
         df = pd.DataFrame({"tgt": [x * 2 + R.randint(0, 1) for x in a], "fa": a, "fb": [(x + R.randint(0, 1)) % 4 for x in a], "fc": [R.randint(0, 5) for _ in range(n)],
                            "fd": [f"s{(x * 3 + R.randint(0, 1)) % 5}" for x in a]})
         strat = MlClustering(target_column="tgt")
-        drop = R.choice(["fa", "fb", "fd"])
+        drop = ["fa", "fd", "fb"][it % 3]
         for step, d in (("first table", df), (f"second table (same strategy object, column {drop!r} withheld)", df.drop(columns=[drop]))):
             t2 = {"df": d, "kinds": ["str" if c == "fd" else "int" for c in d.columns], "n": n, "pid_mode": "unique", "ap": AnonymizationParams(salt=b"12345678"), "bp": None}
             try:
